@@ -42,7 +42,7 @@ def cases(ctx):
     rng = ctx.rng
     # dns/rdtypes directory vs. the model's table of types with a specific codec
     msgs = []
-    n_small = ctx.n(110, 1400)
+    n_small = ctx.n(110, 1000)
     for i in range(n_small):
         origin = None
         if rng.random() < 0.3:
@@ -74,7 +74,7 @@ def cases(ctx):
         yield "parse:" + kind, [2, w, origin, pos[0]]
         if kind != "big":
             yield "parse:" + kind, [2, w, origin if rng.random() < 0.5 else None, rng.choice(pos)]
-            for _ in range(ctx.n(3, 6)):
+            for _ in range(ctx.n(3, 5)):
                 mw = g.mutate_fields(rng, w) if rng.random() < 0.5 else g.mutate_wire(rng, w, rng.choice([1, 1, 2]))
                 yield "parse:mutated", [2, mw, origin if rng.random() < 0.7 else None, rng.choice(pos + [16 | 2])]
         else:
@@ -85,7 +85,7 @@ def cases(ctx):
             yield "parse:mutated", [2, bytes(mw), origin, 16]
     # low-level Renderer sequences (TooBig caught by the caller, more records with the same owner
     # afterwards): the compression table must not keep entries of rolled-back octets
-    for i in range(ctx.n(100, 1200)):
+    for i in range(ctx.n(100, 900)):
         origin = None if rng.random() < 0.8 else [b"o", b"example", b""]
         mid, flags, ms, ops = g.gen_rseq(rng, origin)
         yield "rseq", [7, origin, mid, flags, ms, ops]
@@ -93,7 +93,7 @@ def cases(ctx):
     for w in hostile_wires():
         yield "parse:hostile", [2, w, None, 16]
     # rcode / opcode / EDNS packing
-    for _ in range(ctx.n(150, 2000)):
+    for _ in range(ctx.n(150, 1500)):
         flags = rng.choice([0, 0xFFFF, rng.randrange(65536)])
         ef = rng.choice([0, 0xFFFFFFFF, rng.randrange(2**32)])
         v = rng.choice([0, 15, 16, 4095, 4096, -1, rng.randrange(4096), rng.randrange(16), rng.randrange(256)])
